@@ -1157,9 +1157,23 @@ class _FixedSecrets:
     def __init__(self):
         self.next = bytes(6)
 
+    @property
+    def next(self):
+        return self._next
+
+    @next.setter
+    def next(self, v):  # a new draw under test: forget what was served for the previous one
+        self._next = v
+        self.served = []
+
     def token_bytes(self, n=32):
         assert n == 6, n
-        return self.next
+        # the draw under test first; should the implementation reject it and draw again (the specification forbids a
+        # prand whose random part is all zeros or all ones), later draws differ so that such a loop terminates
+        k = len(self.served)
+        d = self.next if k == 0 else bytes([(0x21 + 7 * k) & 0xFF, 0x43, 0x15]) + self.next[3:]
+        self.served.append(d)
+        return d
 
 
 def rpa_raw_space(quick: bool, irk_index: int, backend: str):
@@ -1179,17 +1193,30 @@ def rpa_raw_space(quick: bool, irk_index: int, backend: str):
 def rpa_eval(bc, fs, Address, AddressResolver, irk, ident, irk2, ident2, own_aes, other_aes, raw, st, backend, irk_index):
     """One raw draw.  Returns None or (sig_what, message)."""
     fs.next = bytes(raw) + b'\xa5\x5a\xc3'
-    want_prand = bytes([raw[0], raw[1], (raw[2] & 0x3F) | 0x40])
-    want_hash = own_aes.encrypt(bytes(13) + want_prand[::-1])[-3:][::-1]
     addr = Address.generate_private_address(irk)
+    used = fs.served[-1] if fs.served else fs.next
+    if len(fs.served) > 1:
+        st.count('draws_rejected_by_generate', len(fs.served) - 1)
+    want_prand = bytes([used[0], used[1], (used[2] & 0x3F) | 0x40])
+    want_hash = own_aes.encrypt(bytes(13) + want_prand[::-1])[-3:][::-1]
     ab = bytes(addr)
     if ab != want_hash + want_prand:
-        return ('generate', f'generate_private_address gave {ab.hex()} for raw draw {bytes(raw).hex()}, expected hash||prand = {(want_hash + want_prand).hex()}')
+        return ('generate', f'generate_private_address gave {ab.hex()} for raw draw {bytes(used).hex()}, expected hash||prand = {(want_hash + want_prand).hex()}')
     if not addr.is_resolvable:
         return ('generate', f'generated address {ab.hex()} is not of the resolvable-private form')
     r = AddressResolver([(irk, ident)]).resolve(addr)
     if r is None or bytes(r) != bytes(ident):
         return ('own_key', f'address {ab.hex()} generated from the IRK does not resolve under it (got {r})')
+    # the same for an address built independently of bumble's generator from the draw under test (any conformant peer
+    # may have generated it), unless the random part of that prand is all zeros / all ones, which the specification forbids
+    raw_prand = bytes([raw[0], raw[1], (raw[2] & 0x3F) | 0x40])
+    rnd = raw[0] | raw[1] << 8 | (raw[2] & 0x3F) << 16
+    if rnd not in (0, 0x3FFFFF) and raw_prand != want_prand:
+        h0 = own_aes.encrypt(bytes(13) + raw_prand[::-1])[-3:][::-1]
+        a0 = Address(h0 + raw_prand, Address.RANDOM_DEVICE_ADDRESS)
+        r0 = AddressResolver([(irk, ident)]).resolve(a0)
+        if r0 is None or bytes(r0) != bytes(ident):
+            return ('own_key', f'address {bytes(a0).hex()} (ah(IRK, prand) || prand built by the reference) does not resolve under the IRK (got {r0})')
     other_hash = other_aes.encrypt(bytes(13) + want_prand[::-1])[-3:][::-1]
     collide = other_hash == want_hash
     r2 = AddressResolver([(irk2, ident2)]).resolve(addr)
